@@ -129,9 +129,9 @@ class AVOID_EXPORT JunctionRef : public Obstacle
         //! router scene and the connector deleted.  A pointer to the 
         //! remaining (merged) connector will be returned by this method.
         //!
-        //! Currently this method does not delete and free the Junction itself.
-        //! The user needs to do this after the transaction has been 
-        //! processed by the router.
+        //! The junction itself is handed to Router::deleteJunction() by this
+        //! method: it is freed when the transaction is processed and must 
+        //! not be deleted (or used) by the user afterwards.
         //!
         //! If there are more than two connectors attached to the junction
         //! then nothing will be changed and this method will return nullptr.
